@@ -186,6 +186,17 @@ def check_tokens(toks, ctx, real=False):
         if 'hex' not in g:
             raise Violation(toks, 'assembler failed on grammar-valid tokens: %r' % g, observed=g)
         got = g['hex']
+    # the same token sequence with every bracketed group split at its blanks into separate arguments (what an unquoted shell
+    # command line or the REPL's word splitting produces) must assemble to the same bytes
+    if not real and any(a.startswith('[') for a in argv) and all(('\t' not in a and '\n' not in a and '#' not in a and '\r' not in a) for a in argv):
+        split = []
+        for a in argv:
+            split += [x for x in a.split(' ') if x] if a.startswith('[') else [a]
+        if split != argv:
+            g2 = harness().req(kvline('asm', args=','.join(a.encode().hex() for a in split)))
+            ctx.count('split-bracket-delivery')
+            if g2.get('hex') != got:
+                raise Violation(toks, 'bracketed group split over several arguments assembles differently: %s vs %s' % (str(g2.get('hex', g2))[:80], got[:80]), observed=str(g2)[:300], expected=got[:300])
     if got != want.hex():
         # locate the first differing token for the report
         why = 'assembled bytes differ from the minimal encoding'
